@@ -234,6 +234,11 @@ func (a *Alias) analyze(fn *ssa.Function, idx int, seeds []ssa.Value) *aliasSumm
 					if isT(x.X) {
 						changed = mark(x) || changed
 					}
+				case *ssa.SliceToArrayPointer:
+					// (*[N]T)(s) points at s's backing array: no copy is made
+					if isT(x.X) {
+						changed = mark(x) || changed
+					}
 				case *ssa.MakeInterface:
 					if isT(x.X) {
 						changed = mark(x) || changed
